@@ -12,10 +12,8 @@ def get_class_init_shape(tp) -> Shape[InputShape, None]:
         tp.__init__,  # type: ignore[misc]
         slice(1, None),
     )
-    return replace(
-        shape,
-        input=replace(
-            shape.input,
-            constructor=tp,
-        ),
-    )
+    input_shape = replace(shape.input, constructor=tp)
+    if "__init__" not in vars(tp):
+        # parameters of inherited `__init__` are annotated at the parent, the class does not override its types
+        input_shape = replace(input_shape, overriden_types=frozenset())
+    return replace(shape, input=input_shape)
